@@ -263,6 +263,35 @@ func L5() []*Grammar {
 	return dedupe(gs)
 }
 
+// L9: interval arrangements. Three tokens, each a range over a universe of n points followed by its own letter, for
+// every ordered triple of distinct ranges (all relative positions - disjoint, nested, staggered, touching, sharing a
+// bound - in all declaration orders).
+func L9(n int) []*Grammar {
+	type iv struct{ lo, hi rune }
+	var ivs []iv
+	for lo := 0; lo < n; lo++ {
+		for hi := lo; hi < n; hi++ {
+			ivs = append(ivs, iv{rune('a' + lo), rune('a' + hi)})
+		}
+	}
+	var gs []*Grammar
+	for i, x := range ivs {
+		for j, y := range ivs {
+			for k, z := range ivs {
+				if i == j || j == k || i == k {
+					continue
+				}
+				gs = append(gs, &Grammar{Lex: []LexDef{
+					{"x", "tok", Seq(Rng(x.lo, x.hi), Lit('x'))},
+					{"y", "tok", Seq(Rng(y.lo, y.hi), Lit('y'))},
+					{"z", "tok", Seq(Rng(z.lo, z.hi), Lit('z'))},
+				}})
+			}
+		}
+	}
+	return gs
+}
+
 // SortBySize orders grammars by text length, then text.
 func SortBySize(gs []*Grammar) {
 	sort.SliceStable(gs, func(i, j int) bool {
@@ -348,6 +377,12 @@ func L6() []*Grammar {
 			}
 		}
 	}
+	// string literals spelled like the reserved names of the token map (they share the reserved numbers, known finding
+	// of C10): the lexer must still cut the input where the lexemes end
+	gs = append(gs, &Grammar{
+		Lex:  []LexDef{{"id", "tok", Seq(Rng('a', 'c'), Rep(Rng('a', 'c')))}, {"!ws", "ign", Lit(' ')}},
+		Alts: []Alt{{Head: "S", Body: []Sym{{Name: "\u241a", Str: true}, {Name: "id"}}}, {Head: "S", Body: []Sym{{Name: "INVALID", Str: true}, {Name: "id"}}}},
+	})
 	// keywords as string literals vs identifiers
 	gs = append(gs, &Grammar{
 		Lex:  []LexDef{{"id", "tok", Seq(Rng('a', 'z'), Rep(Rng('a', 'z')))}, {"!ws", "ign", Lit(' ')}},
